@@ -584,6 +584,14 @@ func c01Corpus() []*pgProgram {
 			pgNClo([]string{"q"}, pgNOp("-", pgNOp("*", x(), pgNId("q")), pgNId("y"))), pgNClo([]string{"q"}, pgNId("q"))))),
 			pgNInt(0)), pgNInt(2)), pgNInt(3)),
 			ArgNames: []string{"x", "y"}, Tuples: [][]*Tree{c01Tup(c01Ti(5), c01Ti(7)), c01Tup(c01Ti(1), c01Ti(9)), c01Tup(c01Ti(-2), c01Ti(4))}, Stream: "corpus"},
+		// a NON-constant local named like a pure static function, called with constant arguments (the optimizer must
+		// not fold the static function): capturing closure, recursive func, closure parameter, inside an argument
+		mk(pgNLet("sqr", pgNClo([]string{"y"}, pgNOp("+", pgNId("y"), x())), pgNCall("closure", pgNId("sqr"), pgNInt(4))), ints),
+		mk(pgNLet("abs", pgNClo([]string{"y"}, pgNOp("-", pgNId("y"), x())), pgNCall("closure", pgNId("abs"), pgNInt(-3))), ints),
+		mk(pgNFunc("sqr", []string{"n"}, pgNIf(pgNOp("<=", pgNId("n"), pgNInt(0)), x(), pgNOp("+", pgNInt(2), pgNCall("closure", pgNId("sqr"), pgNOp("-", pgNId("n"), pgNInt(1))))),
+			pgNCall("closure", pgNId("sqr"), pgNInt(3))), ints),
+		mk(pgNCall("closure", pgNClo([]string{"abs"}, pgNCall("closure", pgNId("abs"), pgNInt(-5))), pgNClo([]string{"y"}, pgNOp("+", pgNId("y"), x()))), ints),
+		mk(pgNLet("sqr", pgNClo([]string{"y"}, pgNOp("*", pgNId("y"), x())), pgNList(pgNCall("closure", pgNId("sqr"), pgNInt(2)), pgNCall("closure", pgNId("sqr"), pgNInt(3)))), ints),
 		// recursion (below); before it: every lazy stage bound by let, two or three further lets, consumed later
 		pgLazyLetProgram("compact", "size", 1, 2, false, c01LazyTuples()),
 		pgLazyLetProgram("combine", "sum", 3, 2, true, c01LazyTuples()),
